@@ -185,7 +185,8 @@ def eof_is_io_rule(ctx):
                     plain.append('%s at %s' % (short_fn(fl), short_loc(t.get('span'))))
     # the provided `Read::skip_bytes` (used by every reader that does not override it: a skip that comes up short is the end of
     # the input) and the header check of the single-object slice entry point (fewer than 10 bytes) are ends of input too
-    for lab in ('de::read::Read::skip_bytes', 'single_object_encoding::from_single_object_slice'):
+    # ... and so is a block that is longer than what is left of the slice (SliceRead::take)
+    for lab in ('de::read::Read::skip_bytes', 'single_object_encoding::from_single_object_slice', '<de::read::SliceRead as de::read::take::Take>::take'):
         for x in f.body_list:
             if fn_label(x).split('::{closure')[0] == lab:
                 for bb, t in x.calls():
